@@ -253,10 +253,10 @@ def guards_at(func: FuncInfo, inner: ast.AST) -> List[Tuple[ast.AST, bool]]:
     from .cfg import split_atoms
     extra: List[Tuple[ast.AST, bool]] = []
     for a, pol in out:
-        if isinstance(a, ast.Name):
-            defs = [d for d in assignments_to(func, a.id) if isinstance(d, (ast.Assign, ast.AnnAssign)) and getattr(d, "value", None) is not None]
-            if len(defs) == 1 and isinstance(defs[0].value, (ast.Compare, ast.BoolOp, ast.UnaryOp, ast.Call)) and a.id not in func.params:
-                extra.extend(split_atoms(defs[0].value, pol))
+        if any(isinstance(y, ast.Name) and isinstance(y.ctx, ast.Load) for y in ast.walk(a)):
+            ex = expand_names(func, a)
+            if norm(ex) != norm(a):
+                extra.extend(split_atoms(ex, pol))
     out.extend(extra)
     return out
 
@@ -334,11 +334,25 @@ def expand_names(func: FuncInfo, expr: ast.AST, depth: int = 2) -> ast.AST:
     ``too_deep = depth > MAX; if too_deep or too_many`` is read as ``if depth > MAX or ...``."""
     import copy
 
+    def _pure(v) -> bool:
+        """an expression whose value is a function of its operands only (safe to read as a definition of the name)"""
+        for y in ast.walk(v):
+            if isinstance(y, ast.Call):
+                fn = y.func
+                nm = fn.id if isinstance(fn, ast.Name) else (fn.attr if isinstance(fn, ast.Attribute) else "")
+                if nm not in ("len", "str", "bool", "isinstance", "callable", "any", "all", "startswith", "endswith", "get", "isawaitable", "iscoroutine", "tuple", "frozenset"):
+                    return False
+            if isinstance(y, (ast.Await, ast.Yield, ast.YieldFrom, ast.Lambda, ast.NamedExpr)):
+                return False
+        return True
+
     class T(ast.NodeTransformer):
         def visit_Name(self, n):
             if isinstance(n.ctx, ast.Load) and n.id not in func.params:
-                defs = [d for d in assignments_to(func, n.id) if isinstance(d, (ast.Assign, ast.AnnAssign)) and getattr(d, "value", None) is not None]
-                if len(defs) == 1 and isinstance(defs[0].value, (ast.Compare, ast.BoolOp, ast.UnaryOp)):
+                all_defs = assignments_to(func, n.id)
+                defs = [d for d in all_defs if isinstance(d, (ast.Assign, ast.AnnAssign)) and getattr(d, "value", None) is not None]
+                if len(defs) == 1 and len(all_defs) == 1 and isinstance(defs[0].value, (ast.Compare, ast.BoolOp, ast.UnaryOp, ast.BinOp, ast.Call, ast.JoinedStr, ast.Subscript)) \
+                        and _pure(defs[0].value) and not any(isinstance(y, ast.Name) and y.id == n.id for y in ast.walk(defs[0].value)):
                     v = copy.deepcopy(defs[0].value)
                     return expand_names(func, v, depth - 1) if depth > 0 else v
             return n
